@@ -47,7 +47,7 @@ fn suffix(w0: &World, ctx: &mut Ctx) -> Outcome {
     for i in 0..n {
         let created = w.nodes[i].created;
         if w.live(i).is_none() {
-            if !created && !w.cfg(i).boot {
+            if (!created && !w.cfg(i).boot) || w.scen.down_forever.contains(&(i as u8 + 1)) {
                 stopped.insert(i);
                 continue;
             }
